@@ -3,11 +3,12 @@
    the raw ranges of nodes, the locations of parse errors and every location of every diagnostic lie
    inside the (normalised) text, have line/column equal to those of their raw offsets, and are either one
    token of the lexer output (covering exactly its spelling) or the hull of the tokens of one statement.
-   Statements only; proofs in Proofs/LocProofs.v (tightness of instruction statements: LocTightProofs.v).
+   Statements only; proofs in Proofs/LocProofs.v (tightness of instruction statements: LocTightProofs.v,
+   for include trees LocTightTreeProofs.v).
    The token-level facts are Props/C09.v. *)
 From RV.Model Require Import Base I32 Imm Lexer Isa Parser Reader Cfg Lints.
 From RV.Spec Require Import PosSpec LineSpec ParamSpec IncludeSpec LocSpec.
-From RV.Proofs Require Import LocProofs LocTightProofs.
+From RV.Proofs Require Import LocProofs LocTightProofs LocTightTreeProofs.
 Open Scope N_scope.
 
 (* ---- the notions of Props/C09.v (same bodies) --------------------------------------------- *)
@@ -387,3 +388,107 @@ Example C09loc_tree_example_unreadable :
   | _ => False
   end.
 Proof. vm_compute. repeat split; reflexivity. Qed.
+
+(* ============================================================================================ *)
+(* (2b) for include trees: instruction nodes run from the mnemonic through the last operand, in the
+   lexer output of the file they are located in.
+
+   Per file: the nodes located in file [k] are, in order, the statements of disjoint segments of the
+   lexer output of file [k], tight for every instruction statement ([segs_tight], Spec/LocSpec.v).
+   The lexer stack does not matter: every file is driven on its own item list and a statement only sees
+   the list on top of the stack, so no statement crosses a file boundary - the first statement of an
+   included file starts in that file's lexer output and its last one ends in it; the rest of the
+   including file is parsed afterwards from what the `.include` statement left unread, and its nodes are
+   again segments of the including file's lexer output (the filter [in_file k] puts the two parts of the
+   including file back together).  The node of a followed (or failed) `.include` directive is not among
+   the nodes at all; with ign = true it is an ordinary directive node, of which - as of every label and
+   directive - only [segs] is claimed. *)
+Definition C09loc_tree_segs_tight_statement : Prop :=
+  forall chk fs base ign nodes errs rs, parse_from_file chk fs base ign = Ok (nodes, errs, rs) ->
+    (nodes = [] /\ exists e, errs = [to_parse_error e (mkw base tok_default)]) \/
+    exists body, nodes = entry_node 0 :: body /\ Forall (node_in (fun k => k < nfiles rs)) body /\
+      forall k, k < nfiles rs -> exists text items,
+        file_items chk fs (imported rs) k text items /\ segs_tight items (filter (in_file k) body).
+Theorem C09loc_tree_segs_tight : C09loc_tree_segs_tight_statement.
+Proof. exact parse_tree_segs_tight. Qed.
+Check C09loc_tree_segs_tight : C09loc_tree_segs_tight_statement.
+Print Assumptions C09loc_tree_segs_tight.
+
+(* Spelled out for one instruction node [n] of the result: there is an imported file [k] - the file the
+   node's raw range names - with text [text] and lexer output [items] such that the statement of [n] is a
+   segment [tf :: u'] of [items]; [tf] is the token of the node's instruction field, all of tf :: u' are
+   operand tokens (no newline, no comment), the node's raw range is the hull of tf and the last of them,
+   and the tokens the node carries are among them. *)
+Definition C09loc_tree_node_range_tight_statement : Prop :=
+  forall chk fs base ign nodes errs rs, parse_from_file chk fs base ign = Ok (nodes, errs, rs) ->
+    forall n, In n nodes -> is_instruction_node n = true ->
+      exists k text items pre tf u' post,
+        k < nfiles rs /\ file_items chk fs (imported rs) k text items /\
+        items = pre ++ map LTok (tf :: u') ++ post /\ mnemonic_tok n = Some tf /\
+        Forall operand_tok (tf :: u') /\ node_raw n = hull tf (last u' tf) /\
+        Forall (fun t => In t (tf :: u')) (node_tokens n) /\
+        rfile (node_raw n) = Some k /\ tfile tf = Some k.
+Theorem C09loc_tree_node_range_tight : C09loc_tree_node_range_tight_statement.
+Proof. exact tree_node_range_tight. Qed.
+Check C09loc_tree_node_range_tight : C09loc_tree_node_range_tight_statement.
+Print Assumptions C09loc_tree_node_range_tight.
+
+(* ---- non-vacuity: a two-file tree with a trailing comment after the last operand in each file ---- *)
+Definition t2_main : str := unlines
+  [ «"main:"»; «"    jalr t0 # c"»; «".include ""b.s"""»; «"    li a7, 10"»; «"    ecall"» ].
+Definition t2_b : str := unlines [ «"    lw a0, 4 # c"»; «"    ret"» ].
+Definition t2_fs : store := [(«"main.s"», inl t2_main); («"b.s"», inl t2_b)].
+
+(* 7 nodes, no error: entry, `main:`, `jalr` (file 0), `lw`, `ret` (file 1), `li`, `ecall` (file 0 again; the
+   followed `.include` left no node).  The `lw` node is an instruction node located in file 1 whose raw
+   range is "lw a0, 4" in the text of b.s: it ends with the operand `4`, not with the comment; likewise
+   the `jalr` node of file 0 ends with `t0`; the `ret` node is the last statement of the included file,
+   the `li` node the first one after the include. *)
+Example C09loc_tree_tight_example :
+  match parse_from_file false t2_fs «"main.s"» false with
+  | Ok (nodes, errs, rs) =>
+      imported rs = [«"main.s"»; «"b.s"»] /\ nfiles rs = 2 /\ length nodes = 7%nat /\ errs = [] /\
+      file_items false t2_fs (imported rs) 0 t2_main
+        (match lex_all false (Some 0) (normalize_text t2_main) with Ok i => i | _ => [] end) /\
+      file_items false t2_fs (imported rs) 1 t2_b
+        (match lex_all false (Some 1) (normalize_text t2_b) with Ok i => i | _ => [] end) /\
+      map (in_file 1) nodes = [false; false; false; true; true; false; false] /\
+      map is_instruction_node nodes = [false; false; true; true; true; true; true] /\
+      (match nth_error nodes 3 with
+       | Some (PLoad i _ _ imm ra as a) =>
+           is_instruction_node a = true /\ rfile ra = Some 1 /\ tfile (wt i) = Some 1 /\
+           mnemonic_tok a = Some (wt i) /\ tt (wt i) = TSymbol «"lw"» /\
+           slice (normalize_text t2_b) (raw_start a) (raw_end a) = «"lw a0, 4"» /\
+           rstart (rrange ra) = rstart (trange (wt i)) /\
+           rend (rrange ra) = rend (trange (wt imm)) /\ tt (wt imm) = TSymbol «"4"»
+       | _ => False end) /\
+      (match nth_error nodes 2 with
+       | Some (PJumpLinkR _ _ rs1 _ rb as b) =>
+           rfile rb = Some 0 /\
+           slice (normalize_text t2_main) (raw_start b) (raw_end b) = «"jalr t0"» /\
+           rend (rrange rb) = rend (trange (wt rs1)) /\ tt (wt rs1) = TSymbol «"t0"»
+       | _ => False end) /\
+      (match nth_error nodes 4, nth_error nodes 5 with
+       | Some a, Some b =>
+           rfile (node_raw a) = Some 1 /\ slice (normalize_text t2_b) (raw_start a) (raw_end a) = «"ret"» /\
+           rfile (node_raw b) = Some 0 /\ slice (normalize_text t2_main) (raw_start b) (raw_end b) = «"li a7, 10"»
+       | _, _ => False end)
+  | _ => False
+  end.
+Proof.
+  vm_compute. split; [reflexivity|]. split; [reflexivity|]. split; [reflexivity|]. split; [reflexivity|].
+  split; [eexists; repeat split; reflexivity|]. split; [eexists; repeat split; reflexivity|].
+  repeat split; reflexivity.
+Qed.
+
+(* the theorem applied to the example: every instruction node of the two-file tree is tight in its file *)
+Example C09loc_tree_tight_example_applied :
+  forall nodes errs rs, parse_from_file false t2_fs «"main.s"» false = Ok (nodes, errs, rs) ->
+    forall n, In n nodes -> is_instruction_node n = true ->
+      exists k text items pre tf u' post,
+        k < nfiles rs /\ file_items false t2_fs (imported rs) k text items /\
+        items = pre ++ map LTok (tf :: u') ++ post /\ mnemonic_tok n = Some tf /\
+        Forall operand_tok (tf :: u') /\ node_raw n = hull tf (last u' tf) /\
+        Forall (fun t => In t (tf :: u')) (node_tokens n) /\
+        rfile (node_raw n) = Some k /\ tfile tf = Some k.
+Proof. intros nodes errs rs Hp. exact (C09loc_tree_node_range_tight false t2_fs «"main.s"» false nodes errs rs Hp). Qed.
